@@ -587,7 +587,8 @@ def _extra(_r, cases, obs):
 TRUSTED = [
     'Coq 8.16.1 kernel (coqc); vm_compute for the refutation witnesses and the Example; no native_compute',
     'Print Assumptions: closed under the global context for every theorem of Props/C13.v',
-    'hand-written model Node/AppCfg.v of the AppCfgMgr handlers, MonitorContainerCleanup.execute and Cleanup.invoke, '
+    'hand-written model Node/AppCfg.v of the AppCfgMgr handlers (after the repairs of _synchronize, _on_deleted, '
+    '_on_created), MonitorContainerCleanup.execute and Cleanup.invoke, '
     'tied by differential execution (cases.v + vm_compute) after every op, with the set/dict iteration orders of '
     '_synchronize recorded from the implementation and fed to the model',
     'modelled, not verified: symlink/rename/readlink/exists semantics of the directories (finite maps; os.path.exists '
